@@ -49,6 +49,7 @@ var c04Probes = []struct {
 	{"same-text-closures-capturing-function", []string{`mk = func(fn) { func(x) { fn(x) } }`, `d1 = mk(x => x * 2)`, `d2 = mk(x => x * 3)`, `println(d1(5))`, `println(d2(5))`}},
 	{"cached-caller-of-redefined-callee", []string{`func g(x) { x + 1 }`, `func f(x) { g(x) }`, `println(f(1))`, `func g(x) { x + 2 }`, `println(f(1))`}},
 	{"negative-zero-argument-shares-entry-with-zero", []string{`func inv(x) { 1 / x }`, `println(inv(0.0))`, `println(inv(-0.0))`}},
+	{"negative-zero-inside-container-argument", []string{`func inva(a) { 1 / a[0] }`, `println(inva([0.0]))`, `println(inva([-0.0]))`, `func invm(m) { 1 / m.z }`, `println(invm({"z": 0.0}))`, `println(invm({"z": -0.0}))`}},
 	{"variadic-array-argument-key", []string{`func va(a, ..) { .. }`, `println(va(1, [[2, 3]]))`, `println(va(1, [2, 3]))`}},
 	{"cached-large-array-mutated-through-result", []string{`func mk(n) { [1, 2, 3, 4, 5, 6, 7, 8, 9] + [n] }`, `a = mk(1)`, `a[0] = 99`, `println(mk(1))`}},
 	// IO functions inside a function (the probe runs in a scratch directory)
